@@ -11,6 +11,8 @@ stdout: last line = JSON list of observations, one per case:
   alias    the target path was given in a non-normal form (case["via"]: ./name, ../out/name, doubled slash,
            through a symbolic link); the other spellings (~/out/name with HOME = scratch root, file://<dir>/name,
            a Path_fc object with cwd=<dir> or created before an os.chdir) resolve to the normal form
+  kind     "fsspec" when the target is an fsspec URL naming the file (local://<dir>/name: save's fsspec branch), else "local"
+  path_ok  the target's directory exists and the target is something Path accepts (not: null byte, a non-path object)
   texts    text-id -> text (id 0 is the empty text)
 Faults are injected from this process only (values put into cfg, a patched jsonargparse._core.dump_using_format,
 a removed source file); nothing in the implementation tree is touched.
@@ -244,7 +246,7 @@ def run_case(case):
         # "link" = through a symbolic link to the directory
         via = case.get("via", "plain")
         if not case["dir_ok"]:
-            target = os.path.join(outd, "no_such_dir", case["main"])
+            target = ("local://" if via == "fsspec" else "") + os.path.join(outd, "no_such_dir", case["main"])
         elif via == "plain":
             target = os.path.join(outd, case["main"])
         elif via == "dot":
@@ -275,6 +277,18 @@ def run_case(case):
                     return Path_fc(case["main"])
                 finally:
                     os.chdir(cwd0)
+        # an fsspec URL that names the local file: save takes its fsspec branch (Path(path, mode="sw").is_fsspec)
+        elif via == "fsspec":
+            target = "local://" + os.path.join(outd, case["main"])
+        # targets that no Path accepts: a null byte in the name, an object that is no path at all
+        elif via == "nul":
+            target = os.path.join(outd, "ma\0in" + case["main"])
+        elif via == "badtype":
+            target = 12345
+        # "-": by Path's convention standard output, but save() opens <cwd>/- like any other file
+        elif via == "dash":
+            os.chdir(outd)
+            target = "-"
         else:
             raise SystemExit("unknown via %r" % via)
         before = snapshot(outd, intern)
@@ -330,7 +344,9 @@ def run_case(case):
                 exc = "reparse:" + type(e).__name__
         return {"res": res, "exc": exc, "before": before, "after": after, "reparse": reparse, "valid": valid,
                 "full": full, "mainr": mainr, "subs": sub_out, "texts": texts, "calls": calls[0],
-                "alias": bool(case["dir_ok"] and via in ("dot", "dotdot", "slash", "link"))}
+                "alias": bool(case["dir_ok"] and via in ("dot", "dotdot", "slash", "link")),
+                "kind": "fsspec" if via == "fsspec" else "local",
+                "path_ok": bool(case["dir_ok"] and via not in ("nul", "badtype"))}
     finally:
         os.chdir(cwd0)
         if home0 is None:
